@@ -31,7 +31,7 @@ PROPS = {
     },
     "C05": {
         "level": "model_checking",
-        "kani": ["c05_air", "c26_serde", "c19_merkle"],
+        "kani": ["c05_air", "c26_serde", "c19_merkle", "c05_fri"],
         "verus": [],
         "level_text": "Panic-freedom contract (requires true, ensures returns Ok or Err) on every decoder and verifier-side "
                       "parser, checked by Kani on a nondeterministic reader: complete for loop-free decoders, bounded "
